@@ -5,6 +5,8 @@ CONSTANTS
  MaxOps = 0
  KeyMode = "literal"
  LockRefTgt = TRUE
+ CtxKinds = {"bg", "cancelled"}
+ MarkCtx = FALSE
  Eager = FALSE
 SPECIFICATION Spec
 INVARIANTS TypeOK LocksNonNeg LocksExact MarkIsReach
